@@ -53,7 +53,9 @@ const NOISE_PARAMETERS: &str = "Noise_XX_25519_ChaChaPoly_SHA256";
 pub(crate) const STATIC_KEY_DOMAIN: &str = "noise-libp2p-static-key:";
 
 /// Maximum Noise message size.
-const MAX_NOISE_MSG_LEN: usize = 65536;
+///
+/// The Noise specification limits a message (payload and authentication tag) to 65535 bytes.
+const MAX_NOISE_MSG_LEN: usize = 65535;
 
 /// Space given to the encryption buffer to hold key material.
 const NOISE_EXTRA_ENCRYPT_SPACE: usize = 16;
